@@ -43,7 +43,7 @@ pub fn run(ctx: &Ctx) -> i32 {
     let notes = ["", "n"];
     let dates: Vec<Option<Date>> = vec![None, Some(Date::from_timestamp(0.0)), Some(Date::from_timestamp(1.5)), Some(Date::from_timestamp(-1.5)), Some(Date::from_timestamp(1720091471.0)), Some(Date::from_timestamp(1720091471.123)), Some(Date::from_timestamp(253402300799.0))];
     // parameter lists of length 0..maxp with repetition
-    let maxp = if th { 3 } else { 2 };
+    let maxp = 3;
     let mut plists: Vec<Vec<(usize, usize)>> = vec![vec![]];
     for p in 0..params.len() { for v in 0..values.len() { plists.push(vec![(p, v)]) } }
     for p in 0..params.len() { for v in [0usize, 7, 9] { for p2 in 0..params.len() { for v2 in [1usize, 8, 0] { plists.push(vec![(p, v), (p2, v2)]) } } } }
@@ -121,7 +121,7 @@ pub fn run(ctx: &Ctx) -> i32 {
     for v in &values { responses.push(Response::new_success(id).with_result(v.clone())); responses.push(Response::new_failure(id).with_error(v.clone())); responses.push(Response::new_early_failure().with_error(v.clone())) }
     responses.push(Response::new_success(id).with_optional_result(None::<Envelope>));
     responses.push(Response::new_failure(id).with_optional_error(None::<Envelope>));
-    let depth = if th { 2 } else { 2 };
+    let depth = if th { 3 } else { 2 };
     let muts = mutators(id);
     for (ri, r) in responses.iter().enumerate() {
         acc.inc("responses");
@@ -133,7 +133,7 @@ pub fn run(ctx: &Ctx) -> i32 {
         let is_resp_tag = matches!(bind::observe(&env.subject()), bind::O::Leaf(_, ref b) if b.starts_with(&[0xd9, 0x9c, 0x45]));
         if !is_resp_tag || count(&env, known_values::RESULT) + count(&env, known_values::ERROR) != 1 { acc.viol("C18|response|shape", "response envelope does not have the documented shape", format!("resp{ri}/shape"), json!({"got": env.format_flat()})) }
         acc.nontrivial(&("r", ri));
-        if ri >= 9 && !th { continue }
+        if ri >= 20 && !th { continue }
         let mut frontier: Vec<(Envelope, String)> = vec![(env.clone(), String::new())];
         for _ in 0..depth {
             let mut next = vec![];
